@@ -50,6 +50,10 @@ def _geoms(tier):
         dict(cb=12, ver=2, W=3, at="absent", alpha="V2", layout="tables_after_data", cut=0, v2="ext"),
         dict(cb=16, ver=3, W=3, at="straddle", alpha="V3", layout="l1_first", cut=512, hl=112, tbase=GB4, dbase=1 << 40,
              comp_high=True),
+        # version 2 with a first header extension of 4 / 16 / 31 bytes (length bits 2, 4, 0..4), small and large clusters
+        dict(cb=12, ver=2, W=3, at="0", alpha="V2", layout="l1_first", cut=0, v2="ext", extlen=4, only=[B.U, B.N]),
+        dict(cb=16, ver=2, W=3, at="0", alpha="V2", layout="l1_first", cut=0, v2="ext", extlen=16, only=[B.U, B.N, B.C]),
+        dict(cb=14, ver=2, W=3, at="straddle", alpha="V2", layout="l2_first", cut=0, v2="ext", extlen=31, only=[B.U, B.N]),
         dict(cb=16, ver=3, W=3, at="0", alpha="V3", layout="l1_first", cut=0, hl=112, datafile=True, only=[B.U, B.Z, B.N]),
         # external data file without the (optional) data-file-name extension, over a backing file
         dict(cb=12, ver=3, W=3, at="0", alpha="V3", layout="l1_first", cut=0, hl=112, datafile="anon", backing="equal",
@@ -277,7 +281,9 @@ def _case_std(case, ctx):
         exts = [(B.EXT_FEATURE_TABLE, bytes([0, 0]) + b"dirty bit".ljust(46, b"\0"))]
     if g["ver"] == 2:
         if g.get("v2") == "ext":
-            exts = [(0x12345678, b"\xff" * 40), (0, b"")]
+            # bytes 72..79 of a version-2 file are the first extension's type and length: in a version-3 header the same bytes
+            # are the incompatible-feature word, whose bits 0..4 would be bits 0..4 of this length
+            exts = [(0x12345678, b"\xff" * g.get("extlen", 40)), (0, b"")]
         elif g.get("v2") == "fmt+backing":
             bfmt = "raw"
     img, dimg = B.build(states, slots, cb, g["ver"], size, at, total, layout=g["layout"], table_base=g.get("tbase"),
